@@ -249,7 +249,7 @@ def run(ctx):
         if k.startswith("K-C09-absolute") and listed2:
             ctx.known.append(k)
             continue
-        if listed:
+        if any(f.get("id") == k.split(":")[0] for f in known.get("findings", [])):
             ctx.known.append(k)
         else:
-            ctx.violation(k, {"note": "unit-dependent solvability"}, no_input=True)
+            ctx.violation(k, {"note": "unit-dependent behaviour"}, no_input=True)
